@@ -185,8 +185,10 @@ pub fn judge_c07_pipe(c: &PipeCase, p: &Probe) -> Judge {
     let start = laid.ends[j - 1];
     let l = laid.ends[j] - start;
     // up to 24 offsets inside the victim, spread from a generated phase
-    let step = (l / 24).max(1);
-    let offsets: Vec<usize> = (0..l).filter(|k| (k + c.off_sel as usize) % step == 0).take(24).collect();
+    // (a stream of megabytes - rare: a wide attribute of maximal values - gets two offsets, not 24)
+    let max_off = if laid.stream.len() > (1 << 20) { 2 } else { 24 };
+    let step = (l / max_off).max(1);
+    let offsets: Vec<usize> = (0..l).filter(|k| (k + c.off_sel as usize) % step == 0).take(max_off).collect();
     p.label("pipelined: fault inside a later message");
     let mut evals = 0u64;
     for &k in &offsets {
